@@ -16,6 +16,10 @@ Python programs (or is refused):
                  -> conditional expressions; `a if not c else b` -> `b if c else a`; `if not c: A else: B` -> swapped
   aliases        a local assigned exactly once to a name / attribute chain / constant, every use after the
                  assignment, no store to one of the chain's attribute names in the function -> substituted
+                 (also an alias of a helper itself: `h = self._helper` / `h = Cls._helper` / `h = _module_function`, then `h(..)`:
+                 inlining and alias substitution are repeated until nothing changes)
+  walrus         `if (x := e) ..:` -> `x = e; if x ..:` when the assignment expression is the first thing the test
+                 evaluates (the test itself, under `not`, first operand of and/or, left operand of a comparison)
   reach          the conjunction of conditions under which a node is evaluated: enclosing if / else /
                  conditional expression / `and` / `or`, and guard clauses (`if c: continue|return|raise|break`
                  before it); `not`, `is not`, `!=`, `not in`, De Morgan over path conditions and chained
